@@ -49,6 +49,16 @@ def run(ctx):
         + sched_stream.fixture_programs(ctx.n(120, None))
     if not sched_stream.compare_modes(ctx, "schedules", files, modes, steps=ctx.n(150000, 400000)):
         return
+    # "in both value representations": the zoo and a part of the generated programs again in the NaN-boxed build
+    ok_nb, out_nb = common.cargo_build(nan_boxing=True)
+    if not ok_nb:
+        ctx.violation("harness_build_nb", {"kind": "harness-build-failed", "broken": "cargo build --features nan_boxing of /verif/harness against /repo",
+                                           "output": out_nb[-3000:]}, no_input=True)
+        return
+    nb_files = cf + sched_stream.write_zoo(ctx, ctx.n(120, 2000), "zoo_nb", salt=1) + files[len(cf):len(cf) + ctx.n(40, 1500)]
+    if not sched_stream.compare_modes(ctx, "schedules_nan_boxing", nb_files, ["--gc every:1", "--gc every:3 --full 1"] if ctx.quick() else modes,
+                                      steps=ctx.n(150000, 400000), nan_boxing=True):
+        return
     ctx.sample({"program": files[len(cf)], "schedules": ["default"] + modes})
     ctx.assumptions += [
         "the allocator model is hand-written from allocator.rs; agreement is checked on the alloc stream",
